@@ -225,6 +225,12 @@ func runBatch(s *scratch, spec *propSpec, b budget, tier string, seed uint64, tr
 	os.MkdirAll(rdir, 0o755)
 	os.MkdirAll(filepath.Join(s.dir, "race"), 0o755)
 	chunk := (b.runs + uint64(w) - 1) / uint64(w)
+	// the systematic corpus (if the engine has one for this property) is split evenly among the workers
+	var sysTotal uint64
+	if out, code := runTool(bin, nil, "systotal", spec.id, tier); code == 0 {
+		fmt.Sscan(strings.TrimSpace(out), &sysTotal)
+	}
+	sysChunk := (sysTotal + uint64(w) - 1) / uint64(w)
 	var wg sync.WaitGroup
 	errs := make([]error, w)
 	outs := make([]string, w)
@@ -240,6 +246,16 @@ func runBatch(s *scratch, spec *propSpec, b budget, tier string, seed uint64, tr
 		outs[i] = filepath.Join(s.dir, fmt.Sprintf("res-%s-%d.json", spec.id, i))
 		args := []string{"batch", "-prop", spec.id, "-tier", tier, "-seed", fmt.Sprint(seed), "-from", fmt.Sprint(from), "-to", fmt.Sprint(to),
 			"-out", outs[i], "-replaydir", rdir, "-maxwall", b.maxWall.String(), "-tree", tree}
+		if sysTotal > 0 {
+			sf, st := uint64(i)*sysChunk, uint64(i+1)*sysChunk
+			if sf > sysTotal {
+				sf = sysTotal
+			}
+			if st > sysTotal {
+				st = sysTotal
+			}
+			args = append(args, "-sysfrom", fmt.Sprint(sf), "-systo", fmt.Sprint(st))
+		}
 		args = append(args, b.extra...)
 		env := []string{"GOMAXPROCS=2"}
 		if b.race {
